@@ -28,6 +28,8 @@ EXPLANATION = (
     "feed an index are sites as well. This decides 'never a panic' on all control-flow paths, not which strings are "
     "accepted."
 )
+EXPLANATION_ADD = ' Additions: (SIB-asn-boundary) Display and FromStr of Asn use the same decimal-notation boundary 2^32-1; (SPLIT-both) both halves of every split_once are examined; (SPLIT-exhaust) a split iterator read with explicit next() calls accounts for the rest (splitn(k) with k reads, or whole-iterator consumption).'
+EXPLANATION = EXPLANATION + EXPLANATION_ADD
 RESIDUAL = [
     "exact acceptance: a string is accepted only if it is the displayed form of some value (language equality over all strings)",
     "display/parse round trip of every value",
